@@ -279,6 +279,15 @@ static void run_c03() {
             for (int a = 0; a < 3; ++a) { rx::AstPool ap; int root = ap.leaf(a); ctr["C03.hex_spelling_patterns"]++; check_pattern(ap, atoms, root); }
         }
     }
+    // "Single char": every printable character that is not a metacharacter stands for itself, alone, in a set, as a range end (0x20 .. 0x7e)
+    for (int c = 0x20; c < 0x7f; ++c) {
+        if (std::strchr("\\|()[]{}*+?.-^", c)) continue;
+        if ((idx++ % cfg.nshards) != cfg.shard || deadline_hit) continue;
+        std::string raw(1, char(c));
+        std::vector<rx::Atom> atoms = {rx::Atom{raw, cs_of({c})}, rx::Atom{"[" + raw + "]", cs_of({c})}, rx::Atom{"[^" + raw + "]", ~cs_of({c})}, rx::Atom{"[ -" + raw + "]", cs_range(' ', c)}, rx::Atom{"[" + raw + "-~]", cs_range(c, '~')}};
+        for (int a = 0; a < 5; ++a) { rx::AstPool ap; int root = ap.leaf(a); ctr["C03.raw_char_patterns"]++; check_pattern(ap, atoms, root); }
+        { rx::AstPool ap; int root = ap.bin(rx::CAT, ap.un(rx::PLUS, ap.leaf(0)), ap.leaf(2)); check_pattern(ap, atoms, root); }
+    }
     // "Escaped char": a backslash followed by any printable character other than x is that character (\\n is the letter n, not a line feed), alone, in a set, as a range end
     for (int c = 0x21; c < 0x7f; ++c) {
         if (c == 'x') continue;
@@ -612,6 +621,8 @@ static void run_c04() {
         run_termset(*g_list, {{'c', "a"}}, bytes, false, 0);
         run_termset(*g_list, {{'c', "a"}, {'r', "[\\x80-\\xff]+"}}, bytes, false, 0);
         run_termset(*g_list, {{'r', "[^a]"}, {'c', "a"}}, bytes, false, 0);
+        run_termset(*g_list, {{'c', "\xe9"}, {'s', "\xc3\xa9"}, {'c', "a"}}, bytes, false, 0);   // char and string terms made of bytes >= 0x80
+        run_termset(*g_list, {{'s', "a\xff"}, {'c', "\x80"}, {'c', "\xff"}}, bytes, false, 0);
         ctr["C04.byte_sweep_inputs"] += (long)bytes.size() * 3;
     }
 }
